@@ -130,7 +130,7 @@ def main():
     ap.add_argument("prop")
     ap.add_argument("--tier", default=os.environ.get("VERIF_TIER", "quick"))
     ap.add_argument("--only", default=None, help="regexp restricting harness names")
-    ap.add_argument("--jobs", type=int, default=int(os.environ.get("VERIF_JOBS", "16")))
+    ap.add_argument("--jobs", type=int, default=int(os.environ.get("VERIF_JOBS", "0")) or max(2, (os.cpu_count() or 8) // 2))
     ap.add_argument("--no-replay", action="store_true")
     a = ap.parse_args()
     seed = int(os.environ.get("VERIF_SEED", "0"))
@@ -145,6 +145,12 @@ def main():
     try:
         jobs = []
         tv_info = []
+        past_cost = {}
+        try:
+            for h in json.load(open(os.path.join(VERIF, "evidence", a.prop + ".json")))["coverage"]["harnesses"]:
+                past_cost[h["id"]] = float(h.get("wall_s") or 0)
+        except Exception:
+            pass
         if spec.get("prepare"):
             r = subprocess.run([os.path.join(VERIF, spec["prepare"]), work, REPO], env=ENV, capture_output=True, text=True)
             sys.stderr.write(r.stderr)
@@ -172,11 +178,17 @@ def main():
                 continue
             cfgpath = os.path.join(work, "cfg%d.json" % gi)
             json.dump(g.get("cfg", {}), open(cfgpath, "w"))
-            nshards = max(1, min(len(names), g.get("shards", a.jobs)))
-            shards = [names[i::nshards] for i in range(nshards)]
+            if len(names) <= 48 and "shards" not in g:
+                # one process per harness, slowest first (times of the last recorded run), so that
+                # the long harnesses start at once and never queue behind each other
+                shards = [[n] for n in sorted(names, key=lambda n: -past_cost.get(n, 5.0))]
+            else:
+                nshards = max(1, min(len(names), g.get("shards", a.jobs)))
+                shards = [names[i::nshards] for i in range(nshards)]
             tmo = g.get("solver_timeout_ms", {}).get(a.tier, 10000 if a.tier == "quick" else 60000)
             for si, sh in enumerate(shards):
                 jobs.append((g, sh, a.tier, cfgpath, os.path.join(work, "out%d_%d.json" % (gi, si)), tmo))
+        jobs.sort(key=lambda j: -sum(past_cost.get(n, 5.0) for n in j[1]))
         with concurrent.futures.ThreadPoolExecutor(max_workers=a.jobs) as ex:
             for (out, rc, err, dt), job in zip(ex.map(run_shard, jobs), jobs):
                 sys.stderr.write(err)
